@@ -7,6 +7,7 @@ import (
 	"fmt"
 	"runtime/debug"
 	"sort"
+	"strings"
 	"sync"
 	"sync/atomic"
 	"testing"
@@ -203,7 +204,7 @@ func runScenario(t fataler, sc scenario) {
 				failure = fmt.Sprintf("panic in the controller goroutine (inside a daemon call): %v\n%s", p, debug.Stack())
 			}
 		}()
-		failure = execScenario(sc, labels, &nontrivial)
+		failure = execScenario(sc, labels, &nontrivial, false, new(bool))
 	}()
 	if !ctl.WaitChan(done, 3*ctl.HangTimeout) {
 		failure = "hang: scenario controller did not finish\n" + ctl.Dump()
@@ -223,9 +224,23 @@ func runScenario(t fataler, sc scenario) {
 	stats.Case(checkOrder, nontrivial, string(js), func() any { return sc }, ls...)
 }
 
-func execScenario(sc scenario, labels map[string]bool, nontrivial *bool) (failure string) {
+// knownRunWaitGroupReuse is the proposed open known finding KF-C20-1: Run waits on the per-order WaitGroups; when all
+// workers of an order have finished and a worker is registered into that order again while Run is still inside (or on
+// its way out of) that WaitGroup's Wait, sync.WaitGroup panics ("WaitGroup is reused before previous Wait has
+// returned" / "WaitGroup misuse: Add called concurrently with Wait") in the goroutine that called Run.
+const knownRunWaitGroupReuse = "KF-C20-1"
+
+const knownMarker = "\x00known"
+
+// execScenario runs one scenario. With includeKnown=false the signature of KF-C20-1 (start mode "run" and a registration
+// into an order whose workers have all finished) is excluded by construction: such registrations are skipped and counted.
+// With includeKnown=true they are performed and a recovered WaitGroup panic of Run is reported through *known (the
+// scenario then ends at once with an empty failure).
+func execScenario(sc scenario, labels map[string]bool, nontrivial *bool, includeKnown bool, known *bool) (failure string) {
 	clk := &ctl.Clock{}
 	d := daemon.New()
+	var runPanic atomic.Value
+	everRan := map[int]bool{}
 	var (
 		all      []*winst // every handler instance ever registered successfully
 		running  []*winst // model: instances that are running now
@@ -258,11 +273,39 @@ func execScenario(sc scenario, labels map[string]bool, nontrivial *bool) (failur
 		if failure != "" {
 			go d.ShutdownAndWait()
 		}
+		if failure == knownMarker {
+			failure = ""
+		}
 	}()
+	drained := func(order int) bool {
+		if sc.StartMode != "run" || !everRan[order] {
+			return false
+		}
+		for _, w := range running {
+			if w.order == order {
+				return false
+			}
+		}
+
+		return true
+	}
+	excluded := func() {
+		labels["excluded_known_run_waitgroup_reuse"] = true
+		stats.NoteAdd(checkOrder, "excluded_known_"+knownRunWaitGroupReuse, 1)
+	}
 
 	// invariant checked inside every wait loop: nobody with a lower order has seen its cancel while a worker with a
 	// higher order (running at shutdown) has not returned; no waiting caller has returned while such a worker runs.
 	invariant := func() string {
+		if p, _ := runPanic.Load().(string); p != "" {
+			if includeKnown && strings.Contains(p, "WaitGroup") {
+				*known = true
+
+				return knownMarker
+			}
+
+			return "Run panicked: " + p
+		}
 		shutMu.Lock()
 		defer shutMu.Unlock()
 		for _, lo := range atShut {
@@ -389,6 +432,11 @@ func execScenario(sc scenario, labels map[string]bool, nontrivial *bool) (failur
 		d.Start()
 	case "run":
 		go func() {
+			defer func() {
+				if p := recover(); p != nil {
+					runPanic.Store(fmt.Sprint(p))
+				}
+			}()
 			d.Run()
 			runRet.Store(clk.Tick())
 		}()
@@ -403,6 +451,7 @@ func execScenario(sc scenario, labels map[string]bool, nontrivial *bool) (failur
 				return f
 			}
 			running = append(running, w)
+			everRan[w.order] = true
 		}
 		if f := checkRunning("after Start"); f != "" {
 			return f
@@ -424,6 +473,7 @@ func execScenario(sc scenario, labels map[string]bool, nontrivial *bool) (failur
 				return f
 			}
 			running = append(running, w)
+			everRan[w.order] = true
 			labels["registered_while_running"] = true
 		}
 		if sc.BusyName && len(running) > 0 {
@@ -467,7 +517,9 @@ func execScenario(sc scenario, labels map[string]bool, nontrivial *bool) (failur
 					return f
 				}
 				labels["early_finisher"] = true
-				if ws.Beh == "early_rereg" {
+				if ws.Beh == "early_rereg" && !includeKnown && drained(ws.ReOrder) {
+					excluded()
+				} else if ws.Beh == "early_rereg" {
 					nw, err := register(ws.Name, ws.ReOrder, false, ws.ReBeh == "hold")
 					if err != nil {
 						return fmt.Sprintf("re-registering the finished worker %s failed: %v", ws.Name, err)
@@ -476,6 +528,7 @@ func execScenario(sc scenario, labels map[string]bool, nontrivial *bool) (failur
 						return f
 					}
 					running = append(running, nw)
+					everRan[nw.order] = true
 					labels["re_registered"] = true
 					if ws.ReOrder != ws.Order {
 						labels["re_registered_other_order"] = true
@@ -530,6 +583,11 @@ func execScenario(sc scenario, labels map[string]bool, nontrivial *bool) (failur
 		}()
 	}
 	for _, rs := range sc.Racers {
+		if !includeKnown && drained(rs.Order) {
+			excluded()
+
+			continue
+		}
 		r := &racerRun{spec: rs, inst: newInst(rs.Name, rs.Order, false), done: make(chan struct{})}
 		racers = append(racers, r)
 		if rs.Phase != "free" {
@@ -762,5 +820,5 @@ func execScenario(sc scenario, labels map[string]bool, nontrivial *bool) (failur
 		}
 	}
 
-	return ""
+	return invariant()
 }
